@@ -33,6 +33,9 @@ import (
 	api "k8s.io/api/core/v1"
 	networking "k8s.io/api/networking/v1"
 	apierrors "k8s.io/apimachinery/pkg/api/errors"
+	metav1 "k8s.io/apimachinery/pkg/apis/meta/v1"
+	gatewayv1 "sigs.k8s.io/gateway-api/apis/v1"
+	gatewayv1alpha2 "sigs.k8s.io/gateway-api/apis/v1alpha2"
 	"sigs.k8s.io/controller-runtime/pkg/client"
 
 	"github.com/jcmoraisjr/haproxy-ingress/pkg/common/ingress/controller"
@@ -67,6 +70,14 @@ type site struct {
 	On  string `json:"on"` // ingress | service
 }
 
+// gwRef is one Gateway API object reference written in namespace a: the backendRef of an
+// HTTPRoute or TCPRoute, or the certificateRef of a Gateway listener.
+type gwRef struct {
+	Site string  `json:"site"` // backendref-http | backendref-tcp | certificateref
+	Name string  `json:"name"`
+	NS   *string `json:"namespace"` // the namespace member of the reference; null = absent
+}
+
 type input struct {
 	Kind    string  `json:"kind"` // grid | sites
 	Setting setting `json:"setting"`
@@ -77,6 +88,8 @@ type input struct {
 	BRef    string `json:"b_ref,omitempty"`  // how b's own ingress spells its reference (default "foreign")
 	AOwn    bool   `json:"a_own,omitempty"`  // namespace a has its own object named foreign (in both worlds)
 	Flip    bool   `json:"flip,omitempty"`   // the key of the referenced kind is allow during a first reconciliation, then set as in Setting
+	// gwsites: a Gateway API reference of namespace a
+	GW *gwRef `json:"gateway_ref,omitempty"`
 	Partial bool   `json:"partial,omitempty"`
 	Repeat  int    `json:"repeat,omitempty"`
 }
@@ -533,6 +546,183 @@ func sameView(a, b c0809.NsView) bool {
 	return strings.Join(a.Hosts, "\n") == strings.Join(b.Hosts, "\n") && strings.Join(a.Backends, "\n") == strings.Join(b.Backends, "\n")
 }
 
+// ---------- Gateway API sites ----------
+
+var svcIPs = map[string]string{"172.17.0.11": "a/svc", "172.17.0.12": "b/svc", "172.17.0.99": "b/foreign", "172.17.0.98": "a/foreign"}
+
+func gwBitOf(site string) int {
+	if site == "certificateref" {
+		return 0
+	}
+	return 3
+}
+
+func gwListener(name string, port int32, proto gatewayv1.ProtocolType, cert *gwRef) gatewayv1.Listener {
+	same := gatewayv1.NamespacesFromSame
+	l := gatewayv1.Listener{Name: gatewayv1.SectionName(name), Port: gatewayv1.PortNumber(port), Protocol: proto,
+		AllowedRoutes: &gatewayv1.AllowedRoutes{Namespaces: &gatewayv1.RouteNamespaces{From: &same}}}
+	if cert != nil {
+		ref := gatewayv1.SecretObjectReference{Name: gatewayv1.ObjectName(cert.Name)}
+		if cert.NS != nil {
+			n := gatewayv1.Namespace(*cert.NS)
+			ref.Namespace = &n
+		}
+		l.TLS = &gatewayv1.GatewayTLSConfig{CertificateRefs: []gatewayv1.SecretObjectReference{ref}}
+	}
+	return l
+}
+
+func gwBackendRef(r gwRef) gatewayv1.BackendRef {
+	port := gatewayv1.PortNumber(8080)
+	br := gatewayv1.BackendRef{BackendObjectReference: gatewayv1.BackendObjectReference{Name: gatewayv1.ObjectName(r.Name), Port: &port}}
+	if r.NS != nil {
+		n := gatewayv1.Namespace(*r.NS)
+		br.Namespace = &n
+	}
+	return br
+}
+
+// gateway + route of one namespace; site tells where ref goes, the other references are the namespace's own svc
+func gwObjects(ns, host string, site string, ref gwRef) []client.Object {
+	own := gwRef{Name: "svc"}
+	var cert *gwRef
+	backend := own
+	switch site {
+	case "certificateref":
+		cert = &ref
+	default:
+		backend = ref
+	}
+	gw := &gatewayv1.Gateway{ObjectMeta: metav1.ObjectMeta{Namespace: ns, Name: "gw"}, Spec: gatewayv1.GatewaySpec{GatewayClassName: "haproxy"}}
+	gw.Spec.Listeners = []gatewayv1.Listener{gwListener("http", 80, gatewayv1.HTTPProtocolType, nil)}
+	section := gatewayv1.SectionName("http")
+	if cert != nil {
+		gw.Spec.Listeners = append(gw.Spec.Listeners, gwListener("https", 443, gatewayv1.HTTPSProtocolType, cert))
+		section = "https"
+	}
+	tcpPort := int32(9000)
+	if ns == "b" {
+		tcpPort = 9001
+	}
+	gw.Spec.Listeners = append(gw.Spec.Listeners, gwListener("tcp", tcpPort, gatewayv1.TCPProtocolType, nil))
+	objs := []client.Object{gw}
+	if site == "backendref-tcp" {
+		tsec := gatewayv1.SectionName("tcp")
+		tr := &gatewayv1alpha2.TCPRoute{ObjectMeta: metav1.ObjectMeta{Namespace: ns, Name: "trt"}}
+		tr.Spec.ParentRefs = []gatewayv1.ParentReference{{Name: "gw", SectionName: &tsec}}
+		tr.Spec.Rules = []gatewayv1alpha2.TCPRouteRule{{BackendRefs: []gatewayv1.BackendRef{gwBackendRef(backend)}}}
+		return append(objs, tr)
+	}
+	hr := &gatewayv1.HTTPRoute{ObjectMeta: metav1.ObjectMeta{Namespace: ns, Name: "rt"}}
+	hr.Spec.ParentRefs = []gatewayv1.ParentReference{{Name: "gw", SectionName: &section}}
+	hr.Spec.Hostnames = []gatewayv1.Hostname{gatewayv1.Hostname(host)}
+	hr.Spec.Rules = []gatewayv1.HTTPRouteRule{{BackendRefs: []gatewayv1.HTTPBackendRef{{BackendRef: gwBackendRef(backend)}}}}
+	return append(objs, hr)
+}
+
+// one world of a gwsites input; foreign tells whether b/foreign exists
+func runGwWorld(in input, foreign bool) worldObs {
+	ref := *in.GW
+	isCert := ref.Site == "certificateref"
+	objs := []client.Object{&gatewayv1.GatewayClass{ObjectMeta: metav1.ObjectMeta{Name: "haproxy"},
+		Spec: gatewayv1.GatewayClassSpec{ControllerName: gatewayv1.GatewayController(oursCtrl)}}}
+	var secrets [][3]string
+	var svcs [][2]string
+	addSvc := func(ns, name, ip string, ann map[string]string) {
+		svc, ep := c0809.Service(ns, name, 8080, ip, ann)
+		objs = append(objs, svc, ep)
+		svcs = append(svcs, [2]string{ns, name})
+	}
+	addSvc("a", "svc", "172.17.0.11", nil)
+	addSvc("b", "svc", "172.17.0.12", nil)
+	addForeign := func(ns, ip string) {
+		if isCert {
+			objs = append(objs, c0809.Secret(ns, "foreign", c0809.SecretData("tls", ns, "foreign")))
+			secrets = append(secrets, [3]string{ns, "foreign", "tls"})
+		} else {
+			// a service annotation of the foreign service would reach the reader's backend too
+			addSvc(ns, "foreign", ip, map[string]string{annPrefix + "secure-backends": "true"})
+		}
+	}
+	if foreign {
+		addForeign("b", "172.17.0.99")
+	}
+	if in.AOwn {
+		addForeign("a", "172.17.0.98")
+	}
+	objs = append(objs, gwObjects("a", "a.local", ref.Site, ref)...)
+	if in.BUses == "same-key" {
+		objs = append(objs, gwObjects("b", "b.local", ref.Site, gwRef{Site: ref.Site, Name: "foreign"})...)
+	}
+	env := c0809.NewEnv(nextDir(), c0809.CfgIn{IngressClass: "haproxy", ControllerName: oursCtrl, AllowCrossNs: in.Setting.Static, Gateway: true}, objs...)
+	p := c0809.NewPipeline(env)
+	p.Watchers.FireCreate(c0809.ConfigMap(globalMap(in.Setting)))
+	p.Reconcile(p.Watchers.Swap(), nil)
+	// a second full reconciliation: the gateway converter runs before the global config is
+	// parsed, so only now it sees the permission bits of the ConfigMap
+	ch := p.Watchers.Swap()
+	ch.NeedFullSync = true
+	p.Reconcile(ch, nil)
+	wo := worldObs{View: p.ViewOf("a", map[string]bool{"a.local": true}), Log: p.Log.Take(), Secrets: secrets, Services: svcs}
+	if isCert {
+		wo.Used = usedBy(p, "tls")
+	} else {
+		for _, b := range p.Backends() {
+			if b.Namespace == "a" && (b.Name == "rt" || b.Name == "trt") {
+				for _, ep := range b.Endpoints {
+					if s, ok := svcIPs[ep.IP]; ok {
+						wo.Used = s
+					} else {
+						wo.Used = "unknown/" + ep.IP
+					}
+				}
+			}
+		}
+	}
+	return wo
+}
+
+func coqGwSite(site, src string, r gwRef) string {
+	k := "SGwBackend"
+	if site == "certificateref" {
+		k = "SGwCert"
+	}
+	ns := ""
+	if r.NS != nil {
+		ns = *r.NS
+	}
+	return fmt.Sprintf("{| st_key := %s; st_src := (Some %s); st_val := %s; st_port := %s |}", k, hx.Str(src), hx.Str(r.Name), hx.Str(ns))
+}
+
+var gwSites = []string{"backendref-http", "backendref-tcp", "certificateref"}
+var gwNames = []string{"foreign", "foreign", "foreign", "b/foreign", "svc", "missing", "a/foreign"}
+
+func genGwSite(rng *rand.Rand) input {
+	site := gwSites[rng.Intn(len(gwSites))]
+	ref := gwRef{Site: site, Name: gwNames[rng.Intn(len(gwNames))]}
+	switch rng.Intn(5) {
+	case 0:
+	case 1:
+		ref.NS = sp("a")
+	case 2:
+		ref.NS = sp("")
+	default:
+		ref.NS = sp("b")
+	}
+	in := input{Kind: "gwsites", Setting: genSetting(rng), GW: &ref}
+	if rng.Intn(4) != 0 {
+		in.Setting.Vals[gwBitOf(site)] = []string{"", "deny", "DENY", "yes", "allow "}[rng.Intn(5)]
+		in.Setting.Static = in.Setting.Static && site != "certificateref"
+	}
+	if rng.Intn(2) == 0 {
+		in.BUses = "same-key"
+	}
+	in.AOwn = rng.Intn(3) == 0
+	return in
+}
+
+func sp(s string) *string { return &s }
+
 // ---------- generators ----------
 
 var valPool = []string{"", "", "deny", "allow", "allow", "ALLOW", "Allow", "DENY", "allow ", "yes", "true", "denied", "allowed"}
@@ -667,6 +857,12 @@ func corpus() []input {
 		// allowed first, then denied: what was read across namespaces has to go away
 		{Kind: "sites", Setting: deny, Reader: &site{Key: "tls", Ref: "b/foreign", On: "ingress"}, Flip: true, Repeat: 1},
 		{Kind: "sites", Setting: deny, Reader: &site{Key: "auth-secret", Ref: "b/foreign", On: "ingress"}, BUses: "same-key", Flip: true, Repeat: 2},
+		// Gateway API: a backendRef / certificateRef of namespace a that carries namespace: b
+		{Kind: "gwsites", Setting: deny, GW: &gwRef{Site: "backendref-http", Name: "foreign", NS: sp("b")}, BUses: "same-key"},
+		{Kind: "gwsites", Setting: deny, GW: &gwRef{Site: "backendref-tcp", Name: "foreign", NS: sp("b")}},
+		{Kind: "gwsites", Setting: deny, GW: &gwRef{Site: "certificateref", Name: "foreign", NS: sp("b")}, BUses: "same-key"},
+		{Kind: "gwsites", Setting: deny, GW: &gwRef{Site: "backendref-http", Name: "b/foreign"}},
+		{Kind: "gwsites", Setting: deny, GW: &gwRef{Site: "certificateref", Name: "b/foreign"}},
 		// secure-crt-secret / secure-verify-ca-secret split ns/name themselves and pass ns as the default namespace
 		{Kind: "sites", Setting: deny, Reader: &site{Key: "secure-crt-secret", Ref: "b/foreign", On: "ingress"}, Repeat: 1},
 		{Kind: "sites", Setting: deny, Reader: &site{Key: "secure-verify-ca-secret", Ref: "b/foreign", On: "service"}, Repeat: 1},
@@ -727,6 +923,23 @@ func main() {
 		for i := 0; i < ns; i++ {
 			inputs = append(inputs, genSite(rng))
 		}
+		// every Gateway API site x reference form x the deny / allow settings of its key, then random ones
+		for _, site := range gwSites {
+			for _, name := range []string{"foreign", "b/foreign"} {
+				for _, nsm := range []*string{nil, sp("a"), sp("b")} {
+					for _, v := range []string{"deny", "allow"} {
+						for _, bu := range []string{"", "same-key"} {
+							st := setting{}
+							st.Vals[gwBitOf(site)] = v
+							inputs = append(inputs, input{Kind: "gwsites", Setting: st, GW: &gwRef{Site: site, Name: name, NS: nsm}, BUses: bu})
+						}
+					}
+				}
+			}
+		}
+		for i := 0; i < ns/3; i++ {
+			inputs = append(inputs, genGwSite(rng))
+		}
 	}
 
 	for _, in := range inputs {
@@ -784,6 +997,47 @@ func main() {
 							hx.Bool(obs.Bits[0]), hx.Bool(obs.Bits[1]), hx.Bool(obs.Bits[2]), hx.Bool(obs.Bits[3]),
 							coqWorld(gridSecs, gridSvcs, nil, gridFiles), hx.List(cs))
 					}, part)
+				}
+			}
+		case "gwsites":
+			ref := *in.GW
+			bit := gwBitOf(ref.Site)
+			denied := !(strings.ToLower(in.Setting.Vals[bit]) == "allow" || (in.Setting.Static && bit < 3))
+			nsm := "<absent>"
+			if ref.NS != nil {
+				nsm = *ref.NS
+			}
+			res.Count(fmt.Sprintf("site=gateway-%s/denied=%v", ref.Site, denied))
+			res.Seen(fmt.Sprintf("%+v %+v %s", in, ref, nsm), nsm == "b" || strings.Contains(ref.Name, "/"))
+			w1 := runGwWorld(in, true)
+			w2 := runGwWorld(in, false)
+			res.OracleChecks++
+			res.Sample(8, map[string]interface{}{"input": in, "world_with_foreign_object": w1.View, "world_without": w2.View})
+			if denied && !sameView(w1.View, w2.View) {
+				key := "C09/site-gateway-backendref"
+				if ref.Site == "certificateref" {
+					key = "C09/site-gateway-certificateref"
+				}
+				res.Count("oracle_fail_" + key)
+				res.Fail(hx.Failure{Key: key, What: fmt.Sprintf("%s of namespace a names %q with namespace member %s while the cross-namespace bit is deny: the configuration of namespace a depends on whether b/foreign exists", ref.Site, ref.Name, nsm),
+					Input: in, Observed: map[string]interface{}{"with_foreign": w1, "without_foreign": w2}})
+			}
+			if !o.Search {
+				for _, w := range []worldObs{w1, w2} {
+					w := w
+					var sites []string
+					if in.BUses == "same-key" {
+						sites = append(sites, coqGwSite(ref.Site, "b", gwRef{Name: "foreign"}))
+					}
+					sites = append(sites, coqGwSite(ref.Site, "a", ref))
+					used := "None"
+					if w.Used != "" {
+						q := strings.SplitN(w.Used, "/", 2)
+						used = "(Some " + hx.Tuple(hx.Str(q[0]), hx.Str(q[1])) + ")"
+					}
+					cw.Add(func(id int) string {
+						return fmt.Sprintf("CSites %s %s %s %s %s", hx.N(id), coqSetting(in.Setting), coqWorld(w.Secrets, w.Services, nil, nil), hx.List(sites), used)
+					}, in)
 				}
 			}
 		case "sites":
